@@ -368,15 +368,18 @@ func ruleC18Codec(c *Ctx) {
 	// gob wrapper type agreement
 	wrap := func(f *ssa.Function, method string) string {
 		out := ""
-		allInstrs(f, func(_ *ssa.BasicBlock, in ssa.Instruction) {
+		deepInstrs(f, func(_ *ssa.Function, _ *TB, _ *ssa.BasicBlock, in ssa.Instruction) {
 			call, ok := in.(*ssa.Call)
 			if !ok || call.Common().StaticCallee() == nil || call.Common().StaticCallee().Name() != method || !strings.Contains(call.Common().StaticCallee().String(), "gob") {
 				return
 			}
 			a := call.Common().Args[1]
 			if mi, isMI := a.(*ssa.MakeInterface); isMI {
-				t := mi.X.Type().String()
-				out = strings.TrimPrefix(t, "*")
+				t := types.Unalias(mi.X.Type())
+				if pt, isP := t.(*types.Pointer); isP {
+					t = types.Unalias(pt.Elem())
+				}
+				out = t.String()
 			}
 		})
 		return out
@@ -1222,7 +1225,7 @@ func ruleC18HashStable(c *Ctx) {
 			if cal := call.Common().StaticCallee(); cal != nil {
 				if cal.Name() == "Encode" && strings.Contains(cal.String(), "encoding/gob") && len(call.Call.Args) == 2 {
 					if mi, isMI := call.Call.Args[1].(*ssa.MakeInterface); isMI {
-						enc[mi.X.Type().String()] = true
+						enc[types.Unalias(mi.X.Type()).String()] = true
 					}
 				}
 				visit(cal, d+1)
@@ -1238,17 +1241,35 @@ func ruleC18HashStable(c *Ctx) {
 		if !strings.HasPrefix(f.Name(), "init") || f.Parent() != nil {
 			continue
 		}
-		allInstrs(f, func(_ *ssa.BasicBlock, in ssa.Instruction) {
-			call, ok := in.(*ssa.Call)
-			if !ok {
+		// (the priming may go through the module's own encoding helper)
+		seenP := map[*ssa.Function]bool{}
+		var visitP func(g *ssa.Function, d int)
+		visitP = func(g *ssa.Function, d int) {
+			if seenP[g] || d > 3 || !c.P.InModule(g) {
 				return
 			}
-			if cal := call.Common().StaticCallee(); cal != nil && cal.Name() == "Encode" && strings.Contains(cal.String(), "encoding/gob") && len(call.Call.Args) == 2 {
-				if mi, isMI := call.Call.Args[1].(*ssa.MakeInterface); isMI {
-					primed[mi.X.Type().String()] = true
+			seenP[g] = true
+			allInstrs(g, func(_ *ssa.BasicBlock, in ssa.Instruction) {
+				call, ok := in.(*ssa.Call)
+				if !ok {
+					return
 				}
-			}
-		})
+				cal := call.Common().StaticCallee()
+				if cal == nil {
+					return
+				}
+				if cal.Name() == "Encode" && strings.Contains(cal.String(), "encoding/gob") && len(call.Call.Args) == 2 {
+					if mi, isMI := call.Call.Args[1].(*ssa.MakeInterface); isMI {
+						primed[types.Unalias(mi.X.Type()).String()] = true
+					}
+					return
+				}
+				if isUnknownHelper(cal) || d == 0 && cal.Name() != "Encode" && strings.Contains(strings.ToLower(cal.Name()), "encode") {
+					visitP(cal, d+1)
+				}
+			})
+		}
+		visitP(f, 0)
 	}
 	for t := range enc {
 		if !primed[t] {
